@@ -41,6 +41,10 @@ class NWorld:
         self.objs = {k: {} for k in KINDS}
         self.lab = {}
         self.keep = []
+        # the manager may build the table of an element it has not seen (a clone) on first use; such a
+        # table-to-be counts as present in the dump. (What matters — refusals, lookups, uniqueness — is
+        # observed through the public API either way.)
+        self.lazy_tables = True
 
     def create(self, kind, label):
         o = CTOR[kind]()
@@ -119,6 +123,17 @@ def execute(W, op):
             W.objs[kind][op["c"][1]] = o
             W.lab[id(o)] = (kind, op["c"][1])
             W.keep.append(o)
+        elif t == "clone":
+            o = W.get(op["e"])
+            c = o.clone()
+            src, dst = subtree(o, op["e"][0]), subtree(c, op["e"][0])
+            if [k for (_, k) in src] != [k for (_, k) in dst]:
+                raise RuntimeError("executor: clone has another shape than its source")
+            for (x, xk), (y, _) in zip(src, dst):
+                lab = W.lab[id(x)][1] + op["off"]
+                W.objs[xk][lab] = y
+                W.lab[id(y)] = (xk, lab)
+                W.keep.append(y)
         else:
             raise RuntimeError("executor: unknown names op " + t)
         return "ok"
@@ -135,7 +150,8 @@ def dump_impl(W):
         tblobj = namespace_manager.namespaces.get(o) if e[0] in CHILD_KINDS else None
         out.append({"e": e, "name": o._data.get(".NAME"), "ident": o._data.get("EDIF.identifier"), "ns": o._data.get(".NS"),
                     "parent": W.el(parent_of(o, e[0])), "kids": sorted(W.el(c) for c in kids_of(o, e[0])),
-                    "tbl": None if tblobj is None else ("EDIF" if type(tblobj).__name__ == "EdifNamespace" else "DEFAULT")})
+                    "tbl": (o._data.get(".NS") if (e[0] in CHILD_KINDS and W.lazy_tables) else None) if tblobj is None
+                    else ("EDIF" if type(tblobj).__name__ == "EdifNamespace" else "DEFAULT")})
     return out
 
 
@@ -251,20 +267,27 @@ def expected_refusal(W, op):
     return None
 
 
+def next_label(lst):
+    return 1 + max([e[1] for e in lst], default=-1)
+
+
 def gen_op(rng, W):
     els = W.all_els()
     by = {k: [e for e in els if e[0] == k] for k in KINDS}
     r = rng.random()
+    if els and len(els) < 36 and rng.random() < 0.05:
+        # clone any element; copies are labelled label + off, off above every label in use
+        return {"t": "clone", "e": rng.choice(els), "off": 1 + max(e[1] for e in els)}
     if r < 0.18 or not els:
         kinds = [k for k in KINDS if len(by[k]) < MAXN[k]]
         if kinds:
             k = rng.choice(kinds)
-            return {"t": "create", "e": [k, len(by[k])]}
+            return {"t": "create", "e": [k, next_label(by[k])]}
     if r < 0.26:
         ck = rng.choice(["library", "definition", "port", "cable", "instance"])
         pk = {"library": "netlist", "definition": "library"}.get(ck, "definition")
         if by[pk] and len(by[ck]) < MAXN[ck] + 2:
-            return {"t": "createIn", "p": rng.choice(by[pk]), "c": [ck, len(by[ck])],
+            return {"t": "createIn", "p": rng.choice(by[pk]), "c": [ck, next_label(by[ck])],
                     "name": rng.choice(NAMES + [None]), "ident": rng.choice(IDENTS + [None, None])}
     if r < 0.40:
         # attach a child to a compatible parent (often already-owned -> assert)
